@@ -304,7 +304,7 @@ Lemma transfer_rules x p g' :
       exists g r, x_grant x = Some g /\ accept g (x_msg x) = Some r /\ g' = stored_after r
   end.
 Proof.
-  unfold transfer, transfer_gen.
+  unfold transfer, transfer_gen, transfer_gen2.
   destruct (Z.ltb_spec (m_amt (x_msg x)) 0) as [|Hamt]; [discriminate|].
   destruct (x_status x) eqn:Es; cbn [status_eqb negb]; try discriminate.
   destruct (x_type x) eqn:Et; cbn [is_restricted negb]; try discriminate.
